@@ -22,6 +22,7 @@ for k in sorted(fixed, key=lambda k: (k["property"], k.get("commit", ""))):
 g84 = "\n".join(out)
 rows = []
 cnt = {}
+series = {}
 for d in sorted(glob.glob(os.path.join(V, "seeded", "*"))):
     mp = os.path.join(d, "meta.json")
     if not os.path.exists(mp):
@@ -33,11 +34,18 @@ for d in sorted(glob.glob(os.path.join(V, "seeded", "*"))):
     v = oc.get("verdict", "?")
     cnt[v] = cnt.get(v, 0) + 1
     rows.append("| %s | %s | %s | %s | %s |" % (os.path.basename(d), clean(m.get("summary"), 170), clean(m.get("needs"), 130), first, v))
+    ser = os.path.basename(d).split("-")[1][0]
+    st = series.setdefault(ser, [0, 0, 0])
+    st[0] += 1
+    st[1] += 1 if str(first).startswith("caught") else 0
+    st[2] += 1 if str(v).startswith("caught") else 0
 out = ["### 8.5 Seeded changes and which checks catch them (generated from seeded/*/meta.json)\n",
-       "Four independent series (a, b, c, d) of three changes per property, written by sub-agents that saw only the property text, "
+       "Six independent series (a–f) of up to three changes per property, written by sub-agents that saw only the property text, "
        "a scratch worktree and the build kit; each confirmed (demo passes on HEAD, fails with the patch; pinned baseline passes with the patch) "
        "before being filed. `first` = verdict of our check when the change was first run against it, `now` = verdict after the checks were "
        "strengthened. Totals now: " + ", ".join("%s %d" % kv for kv in sorted(cnt.items())) + ".\n",
+       "Per series (changes filed / caught when first run / caught now): " + "; ".join("%s: %d / %d / %d" % (k, v[0], v[1], v[2]) for k, v in sorted(series.items())) +
+       ". Each series was written against the checks as strengthened after the previous one, so the first-run column measures how well the checks generalise to changes nobody had seen.\n",
        "| id | change | needs | first | now |\n|---|---|---|---|---|"] + rows
 g85 = "\n".join(out)
 p = os.path.join(V, "DESIGN.md")
